@@ -1075,8 +1075,12 @@ def rule_initialisable(chk, prog, tier):
     apvm = array(pvm, None); apvm.name = 'int(*[])[n]'
     apvm3 = array(pvm, 3); apvm3.name = 'int(*[3])[n]'
     T = {'int[n]': vla, 'int[2][n]': vla2, 'int(*[])[n]': apvm, 'int(*[3])[n]': apvm3, 'int[]': array(I, None), 'int[3]': array(I, 3)}
+    C = scalar('char')
+    fam = record('struct', 'fam', [('n', I, None), ('s', array(C, None), None)])
+    T['fam'] = fam; T['famA'] = array(fam, None) if False else fam
     e = lambda k: ((), ('e', 'v%d' % k))
-    CASES = [('int[n]', ('list', [e(0)]), False), ('int[n]', ('list', [e(0), e(1)]), False), ('int[2][n]', ('list', [e(0)]), False), ('int(*[])[n]', ('list', [e(0), e(1)]), 16), ('int(*[3])[n]', ('list', [e(0)]), 24),
+    CASES = [('fam', ('list', [e(0)]), 4), ('fam', ('list', [e(0), ((), ('str', 3, 1, 'v1'))]), False), ('fam', ('list', [e(0), ((), ('list', [e(1)]))]), False), ('fam', ('list', [((('.', 's'),), ('list', [e(1)]))]), False),
+             ('fam', ('list', [e(0), e(1)]), False),('int[n]', ('list', [e(0)]), False), ('int[n]', ('list', [e(0), e(1)]), False), ('int[2][n]', ('list', [e(0)]), False), ('int(*[])[n]', ('list', [e(0), e(1)]), 16), ('int(*[3])[n]', ('list', [e(0)]), 24),
              ('int[]', ('list', [e(0), e(1), e(2)]), 12), ('int[3]', ('list', [e(0)]), 12), ('int[]', ('list', []), False)]
     for tn, item, want in CASES:
         outcome, val = run_parseinit(prog, fn, T, tn, item)
